@@ -10,7 +10,22 @@ from checks import c08
 
 PID = "C10"
 COMMENT = re.compile(r'"(?:[^"\\\n]|\\.)*"|r#*"|\'(?:[^\'\\\n]|\\.)\'|(//[^\n]*|/\*.*?\*/)', re.S)
-LITERAL = re.compile(r'("(?:[^"\\\n]|\\.)*"|\'(?:[^\'\\\n]|\\.)\'|(?<![A-Za-z_0-9.])\d+(?:\.\d+)?(?:[eE][-+]?\d+)?b?)|//[^\n]*|/\*.*?\*/', re.S)
+LITERAL = re.compile(r'("(?:[^"\\\n]|\\.)*"|\'(?:[^\'\\\n]|\\.)\'|(?:(?<=\()-)?(?<![A-Za-z_0-9.])(?:0x[0-9A-Fa-f]+|\d+(?:\.\d+)?(?:[eE][-+]?\d+)?)b?)|//[^\n]*|/\*.*?\*/', re.S)
+INT_TOKEN = re.compile(r'"(?:[^"\\\n]|\\.)*"|\'(?:[^\'\\\n]|\\.)\'|//[^\n]*|/\*.*?\*/|(?<![A-Za-z_0-9.#])(\d+)(?![A-Za-z_0-9.])', re.S)
+
+
+def respell(text):
+    """every integer literal gets another spelling of a number (hexadecimal, leading zeros, negative, float with a
+    trailing zero, ...): the formatter must reproduce each literal byte for byte"""
+    k = [0]
+    def sub(m):
+        if m.group(1) is None:
+            return m.group(0)
+        n = int(m.group(1))
+        k[0] += 1
+        forms = ["0x%X" % n, "(-%d)" % n, "(-0x%X)" % n, "(-%d.0)" % n, "%d.50" % n, "00%d" % n, "(-%d.50)" % n, "(-00%d)" % n]
+        return forms[k[0] % len(forms)]
+    return INT_TOKEN.sub(sub, text)
 
 
 def comments(text):
@@ -55,6 +70,7 @@ def run(tier):
         inputs.append(("lang:canonical", a))
         for st, src in c08.styles(a).items():
             inputs.append(("lang:" + st, src))
+        inputs.append(("lang:respelled-literals", respell(a)))
     files = sorted(glob.glob(vlib.REPO + "/std/**/*.glu", recursive=True) + glob.glob(vlib.REPO + "/tests/pass/*.glu") + glob.glob(vlib.REPO + "/examples/**/*.glu", recursive=True))
     if tier == "quick":
         files = files[::2]
@@ -101,7 +117,9 @@ def run(tier):
                 continue          # the input itself does not parse as an expression (not a formatter matter)
             rec = {"out": h(out), "again": h(again.get("value")) if again.get("status") == "ok" else "error:" + again.get("msg", "")[:40]}
             if b.get("status") != "ok":
-                V.violation("output-unparsable:%s" % label, "the formatter's output does not parse (%s): %s" % (j["kind"], b.get("msg", "")[:300]), dict(rep, out=out[:4000]))
+                # the recorded defect: a parenthesised `let .. in ..` written on one line loses its `in`
+                cause = "paren-let-in" if re.search(r"\(\s*let [^\n]* in ", j["src"]) and re.search(r"Expected\s+in\b", b.get("msg", "")) else "other"
+                V.violation("output-unparsable:%s:%s" % (label, cause), "the formatter's output does not parse (%s): %s" % (j["kind"], b.get("msg", "")[:300]), dict(rep, out=out[:4000]))
                 continue
             try:
                 ta = astlib.normalise(astlib.parse_debug(a["value"]))
